@@ -157,6 +157,14 @@ def run(rep: Report, tier: str) -> None:
     # (a credit refilling the account later must not hide the transient overdraft: guaranteed by C08.a's per-debit rule)
 
     # ---------------------------------------------------------------- C08.d
+    # what is debited is what leaves the account: the per-class flows of the replay are C07.a's obligation; restated because the overdraft test is only as
+    # right as the amounts it adds up (a debit taken from an optional, exchange-supplied total under-counts the outflow)
+    from . import c07 as _c07
+
+    rj = rep.rule("C08.j", "the running balance the overdraft test sees is built from the per-class flows (C07.a restated)", floor=2)
+    sub7 = Report("C07", tier)
+    _c07.run(sub7, tier)
+    rep.absorb(sub7, rj, ("C07.a",), "balance replay flows")
     rd = rep.rule("C08.d", "replay in chronological order, in-transactions first in a stable sort", floor=2)
     it = bm.replay_iterable()
     from .c07 import replay_order
